@@ -4538,7 +4538,16 @@ impl<'a> Assignment<'a> {
                             ))
                         })?,
                         ArgType::String => DataValue::String(value.to_string()),
-                        _ => unreachable!("argtype should not occur"),
+                        ArgType::Null => DataValue::Null,
+                        _ => {
+                            return Err(StamError::QuerySyntaxError(
+                                format!(
+                                    "Values of type {:?} are not supported in an assignment, got '{}'",
+                                    valuetype, value
+                                ),
+                                "",
+                            ))
+                        }
                     }
                 };
                 Self::Data { set, key, value }
